@@ -290,6 +290,26 @@ Proof.
   specialize (IH r' Hwf' Hc'). rewrite Hoff, Hlen in IH. apply IH; [exact Hin | exact Hrest].
 Qed.
 
+(* HTTP, from whatever state ServeContent's own probing (Seek to the end for the size, sniffing the first 512
+   bytes for the content type, Seek back) has left the reader in *)
+Lemma http_range_any psize total r s st a cnt fuel :
+  rd_wf psize total r -> rd_closed r = false -> rd_offset r + rd_length r <= total ->
+  rspec_ok s = true -> http_range (rd_length r) s = (st, a, cnt) -> st <> 416 -> (Z.to_nat cnt <= fuel)%nat ->
+  let l := fst (read_n fuel 32768 psize total (fst (rd_seek r a SeekStart)) cnt) in
+  chained (rd_offset r + a) l /\ rsum l = cnt /\ 0 <= a /\ a + cnt <= rd_length r.
+Proof.
+  intros Hwf Hc Hin Hs H Hst Hfu l0. subst l0.
+  destruct Hwf as (W1 & W2 & W3 & W4 & W5).
+  destruct (http_range_inside _ _ _ _ _ W4 Hs H Hst) as (Ha & Hcn & Hac & _).
+  unfold rd_seek. rewrite Hc. replace (a <? 0) with false by lia. cbn [fst].
+  set (r1 := {| rd_offset := rd_offset r; rd_length := rd_length r; rd_pos := a; rd_closed := false |}).
+  assert (Hwf1 : rd_wf psize total r1) by (unfold rd_wf, r1; cbn; lia).
+  assert (H32 : 0 < 32768) by lia.
+  destruct (read_n_spec 32768 psize total H32 fuel r1 cnt Hwf1 eq_refl Hcn Hfu) as (C & S & _).
+  unfold left, r1 in *. cbn [rd_offset rd_pos rd_length] in *.
+  repeat split; try lia. exact C.
+Qed.
+
 Example http_range_example :
   fst (read_n 100 32768 16384 100000 (fst (rd_seek (rd_new 5000 60000) 100 SeekStart)) 40000)
   = [(5100, 11284); (16384, 16384); (32768, 12332)].
